@@ -14,6 +14,7 @@ BOUNDS = {"quick": "original: 6 polytope pairs x 4 sweeps; nesterov +-accelerati
           "thorough": "all corpus pairs and sweeps; contract x 3 rotation sweeps x both modules"}
 WALL_BUDGET = {"quick": 300, "thorough": 600}
 EXPECTED_EXCEPTIONS = ()
+ROUND_ROBIN = False     # own order: the cheap one-step contract jobs first, then round-robin below
 
 
 def make(family, args):
@@ -62,4 +63,16 @@ def jobs(tier, seed):
         j["family"] = "jolt_iterations:" + j["family"]
         J.append(j)
     J += GC.branch_scene_jobs(tier, {"prim": "prim", "generic": "nesterov"})
+    if tier == "quick":
+        head = [j for j in J if j["family"].startswith("contract:")]
+        rest = [j for j in J if not j["family"].startswith("contract:")]
+        groups = {}
+        for j in rest:
+            groups.setdefault(j["family"].split(":")[0], []).append(j)
+        lists, order = list(groups.values()), []
+        while any(lists):
+            for L in lists:
+                if L:
+                    order.append(L.pop(0))
+        J = head + order
     return J
